@@ -17,6 +17,8 @@ func NodeMain(env Env) int {
 	switch args[0] {
 	case "smoke":
 		return smoke(env, args[1:])
+	case "explore":
+		return explore(env, args[1:])
 	default:
 		return dispatch(env, args)
 	}
